@@ -78,6 +78,7 @@ type Options struct {
 	DelayBound bool          // every non-default task choice costs 1 (delay bounding)
 	SelectFree bool          // non-first ready select cases cost 0
 	Trace      bool          // record a human-readable step trace
+	LazyTime   bool          // virtual time advances only when no task is enabled (no early timer deviations)
 }
 
 // Execution is the result of one run.
@@ -401,6 +402,9 @@ func (s *Sched) pick() *task {
 		}
 		en := s.enabledTasks()
 		timeOpt := s.timerPending()
+		if s.opts.LazyTime && len(en) > 0 {
+			timeOpt = false
+		}
 		if len(en) == 0 {
 			if timeOpt {
 				s.advanceTime()
@@ -550,7 +554,7 @@ func callerName() string {
 		return "go"
 	}
 	fn := runtime.FuncForPC(pc).Name()
-	if i := strings.LastIndex(fn, "."); i >= 0 {
+	if i := strings.LastIndex(fn, "/"); i >= 0 {
 		fn = fn[i+1:]
 	}
 	return fmt.Sprintf("%s#%d", fn, line)
@@ -610,6 +614,21 @@ func Choose(label string, n int, class uint8) int {
 }
 
 var logObj Obj
+
+// extObj stands for state outside the shim objects (the real filesystem): operations on it
+// are totally ordered in the state key.
+var extObj Obj
+
+// PointExternal is a scheduling point followed by an operation on the external-state
+// object; every logged filesystem call goes through it in the controlled build.
+func PointExternal(kind string) {
+	s := S
+	if s == nil || s.teardown {
+		return
+	}
+	s.yield(&pendingOp{kind: kind, enabled: alwaysEnabled})
+	extObj.touch(s, s.cur, hashStr(kind))
+}
 
 // Log appends an event to the global observation log; it is an operation on the
 // global log object, so logged events are mutually ordered in the state key.
@@ -689,5 +708,5 @@ func LiveTasks() []string {
 }
 
 func init() {
-	RegisterReset(func() { logObj = Obj{} })
+	RegisterReset(func() { logObj = Obj{}; extObj = Obj{} })
 }
